@@ -111,6 +111,18 @@ def bounded_cycle(ctx):
     for g in unit:
         ctx.analysed(g)
         whiles = [n for n in body_walk(g.node) if isinstance(n, ast.While)]
+        def budgeted(w):
+            # `while not done:` whose every round first draws from an iterator over a range: `if next(budget, None) is None: <leave>`
+            its = {x.targets[0].id for x in body_walk(g.node) if isinstance(x, ast.Assign) and len(x.targets) == 1 and isinstance(x.targets[0], ast.Name)
+                   and any(isinstance(c, ast.Call) and dotted(c.func) == 'iter' and c.args and isinstance(c.args[0], ast.Call) and dotted(c.args[0].func) == 'range'
+                           for c in ast.walk(x.value))}
+            first = w.body[0] if w.body else None
+            return isinstance(first, ast.If) and any(isinstance(c, ast.Call) and dotted(c.func) == 'next' and c.args and isinstance(c.args[0], ast.Name)
+                                                     and c.args[0].id in its for c in ast.walk(first.test))
+        if whiles and all(budgeted(w) for w in whiles):
+            ctx.undecided(f'{g.qualname}:no while loop', whiles[0], f'`while {src(whiles[0].test)}` draws from an iterator over a range in every round: '
+                          'bounded if every round does - not decided', g)
+            whiles = []
         ctx.check(not whiles, f'{g.qualname}:no while loop', whiles[0] if whiles else g.node, 'no while loop',
                   f'{g.name} contains a while loop: a chain of state functions that never returns Retry does not terminate', g)
         fors = [n for n in body_walk(g.node) if isinstance(n, (ast.For, ast.AsyncFor))]
@@ -185,6 +197,10 @@ def never_raises(ctx):
     fcfg = CFG(f.node, m, f.module)
     notcallable = sides_with_fact(fcfg, lambda a, tv: not tv and isinstance(a, ast.Call) and dotted(a.func) == 'callable' and a.args and src(a.args[0]) in rv)
     ok = any(call_attr(x) == '_cleanup' and set(fcfg.node_of(x)) <= notcallable for x in calls_in(f.node))
+    if not ok:
+        # ... or a call of a local function of cycle() that ends in _cleanup (`successor = misbehaved('return value must be ...')`)
+        local = {d.name for d in ast.walk(f.node) if isinstance(d, ast.FunctionDef) and d is not f.node and any(call_attr(x) == '_cleanup' for x in calls_in(d))}
+        ok = any(isinstance(x.func, ast.Name) and x.func.id in local and set(fcfg.node_of(x)) <= notcallable for x in calls_in(f.node))
     ctx.check(ok, f'{f.qualname}:non-callable return routed to cleanup', f.node, 'if not callable(ret): ret = self._cleanup(...)',
               'a non-callable return value is not routed to the cleanup (it would be called as next state)', f)
     g = _m(m, '_cleanup')
@@ -591,3 +607,26 @@ def cleanup_hooks_are_looked_up_on_the_object(ctx):
         ctx.ok(key, by_object[0], 'self.on_...(sm) / getattr(self, name)(sm)', f)
     else:
         ctx.undecided(key, f.node, 'how on_cleanup reaches the hooks was not recognised', f)
+
+
+@rule('C14.R11', min_instances=1)
+def the_status_follows_the_machine_whatever_the_notification_mode(ctx):
+    """HasStates.state_transition (the transition callback of the machine): `sm.status = status` is what makes the module
+    report its running / stopping / final status; `all_status_changes` only selects how often read_status() is called.  The
+    store must not depend on that flag - under `if self.all_status_changes:` a module that asks for one update per cycle keeps
+    the status of the start request (BUSY) for ever, the final or stopped status is never reported"""
+    m = ctx.m
+    f = m.method('frappy.states.HasStates', 'state_transition', inherited=False)
+    ctx.analysed(f)
+    smname = f.node.args.args[1].arg
+    cfg = CFG(f.node, m, f.module)
+    stores = [s for t, v, s in attr_stores(f.node) if t.attr == 'status' and dotted(t.value) == smname]
+    if not stores:
+        raise AnchorMissing('store of <sm>.status not found in HasStates.state_transition', violation=f'{f.qualname}:status stored independent of all_status_changes')
+    dep = sides_with_fact(cfg, lambda a, tv: isinstance(a, ast.Attribute) and a.attr == 'all_status_changes')
+    for s in stores:
+        ids = set(cfg.node_of(s))
+        ctx.check(not (ids and ids <= dep), f'{f.qualname}:status stored independent of all_status_changes', s,
+                  'the store is reached on both sides of every test of all_status_changes',
+                  f'`{src(s)}` is executed only on one side of a test of `all_status_changes`: with the other setting the status of the module never '
+                  'follows the machine - it stays at what start_machine / stop_machine set', f)
